@@ -63,6 +63,13 @@ mpz_miller_rabin (mpz_srcptr n, int reps, gmp_randstate_t rnd)
   unsigned long int k;
   int is_prime;
   TMP_DECL;
+
+  /* The Fermat test below uses base 210 = 2*3*5*7 and the witnesses are drawn
+     from [2, n-2]: neither makes sense for tiny n.  Decide those directly.  */
+  if (mpz_cmp_ui (n, 11L) < 0)
+    return mpz_cmp_ui (n, 2L) == 0 || mpz_cmp_ui (n, 3L) == 0
+      || mpz_cmp_ui (n, 5L) == 0 || mpz_cmp_ui (n, 7L) == 0;
+
   TMP_MARK;
 
   MPZ_TMP_INIT (nm1, SIZ (n) + 1);
